@@ -902,19 +902,31 @@ func buildDirectSchema() *graphql.Schema {
 	mut := &graphql.ObjectType{Name: "Mut", Fields: mk("Mut", mutFields)}
 	obj.ImplementedInterfaces = []*graphql.InterfaceType{iface}
 	obj.IsTypeOf = func(interface{}) bool { return true }
-	s, err := graphql.NewSchema(&graphql.SchemaDefinition{
+	def := &graphql.SchemaDefinition{
 		Query:    obj,
 		Mutation: mut,
 		Directives: map[string]*graphql.DirectiveDefinition{
 			"include": graphql.IncludeDirective,
 			"skip":    graphql.SkipDirective,
 		},
-	})
+	}
+	// the same definition through SchemaDefinition.Clone(), as api-fu's Config builds its schema when
+	// PreprocessGraphQLSchemaDefinition is set: the cost functions of the ORIGINAL definition (objects,
+	// interfaces, the mutation root) must still be the ones the rule calls
+	cloned := def.Clone()
+	s, err := graphql.NewSchema(def)
 	if err != nil {
 		panic(err)
 	}
+	sc, err := graphql.NewSchema(cloned)
+	if err != nil {
+		panic(err)
+	}
+	directSchemaPlain, directSchemaCloned = s, sc
 	return s
 }
+
+var directSchemaPlain, directSchemaCloned *graphql.Schema
 
 // ---------------------------------------------------------------------------------------------
 // generator of valid documents
@@ -1327,6 +1339,13 @@ func pickLimit(r *rng.R, a0 int) int {
 func directCase(d *doc, opName string, vars map[string]interface{}, dc graphql.FieldCost, limit func(a0 int) int) sexp.Node {
 	q := d.text()
 	assertShape(q, d.opsSexp(), d.fragsSexp())
+	// one case in three runs against the schema built from the cloned definition
+	schemaMode := "plain"
+	directSchema = directSchemaPlain
+	if len(q)%3 == 1 {
+		schemaMode, directSchema = "cloned", directSchemaCloned
+	}
+	defer func() { directSchema = directSchemaPlain }()
 	var observed sexp.Node
 	var calls []sexp.Node
 	max := -1
@@ -1351,7 +1370,7 @@ func directCase(d *doc, opName string, vars map[string]interface{}, dc graphql.F
 		sexp.T("ops", d.opsSexp()), sexp.T("frags", d.fragsSexp()), sexp.T("max", zint(max)),
 		sexp.T("conns", sexp.L()), sexp.T("observed", observed), sexp.T("std", sexp.Int(std)),
 		sexp.T("env", envSexp()), sexp.T("xvars", xvarsSexp(d, vars)), sexp.T("calls", sexp.L(calls...)),
-		sexp.T("varshape", sexp.Sym(directShape(vars))), projFlag(q), sexp.T("query", sexp.Str(q)))
+		sexp.T("varshape", sexp.Sym(directShape(vars))), projFlag(q), sexp.T("schemamode", sexp.Sym(schemaMode)), sexp.T("query", sexp.Str(q)))
 }
 
 func apiShape(shape string, vars map[string]interface{}) string {
